@@ -223,6 +223,12 @@ fn c02(quick: bool) -> Vec<Harness> {
     v.push(ops_harness("readiness-stream+address", "C02", cfg, bounds(d(8, 10), d(2, 3), 4)));
 
     let mut cfg = Cfg::base("C02");
+    cfg.preset = vec![Kind::ReceiveSignals, Kind::ReceiveSignal];
+    cfg.kinds = vec![];
+    cfg.max_ops = 2;
+    v.push(ops_harness("signal-iterator+single", "C02", cfg, bounds(d(9, 11), d(2, 3), 4)));
+
+    let mut cfg = Cfg::base("C02");
     cfg.preset = vec![Kind::SpliceTo, Kind::SendToVectored, Kind::OpenTemp];
     cfg.kinds = vec![];
     cfg.max_ops = 3;
@@ -590,7 +596,7 @@ fn c09(quick: bool) -> Vec<Harness> {
         ReadPool, RecvPool, MultishotRead, MultishotRecv, Accept, AcceptNoAddr, MultishotAccept, OpenFile, Socket,
         Connect, Bind, LocalAddr, SockOpt, SetSockOpt, Statx, CreateDir, Rename, RemoveFile, Fsync, Truncate, Shutdown,
         Pipe, WaitId, ReadLimited, OpenDirect, SocketDirect, PipeDirect, ToDirect, Listen, PeerAddr, SyncData, FAdvise,
-        Allocate, MemAdvise, SpliceTo, SpliceFrom, SendToVectored, OpenTemp, Pollable,
+        Allocate, MemAdvise, SpliceTo, SpliceFrom, SendToVectored, OpenTemp, Pollable, ReceiveSignal, ReceiveSignals,
     ];
     for k in kinds {
         let mut cfg = Cfg::base("C09");
@@ -646,7 +652,8 @@ fn c06(quick: bool) -> Vec<Harness> {
     use Kind::*;
     let kinds = [
         ReadVec, WriteVec, ReadVectored2, RecvFrom, SendZc, SendVectoredZc, MultishotRead, MultishotAccept, Statx, Connect, Rename,
-        SendToVectored, PeerAddr, SpliceTo, OpenTemp, Pollable, RecvN, SendAllVectored,
+        SendToVectored, PeerAddr, SpliceTo, OpenTemp, Pollable, RecvN, SendAllVectored, ReceiveSignal, ReceiveSignals,
+        ReceiveSignalsIntoInner,
     ];
     for k in kinds {
         let mut cfg = drop_cfg("C06", vec![k]);
@@ -679,7 +686,7 @@ fn c01(quick: bool) -> Vec<Harness> {
         Socket, Connect, Bind, LocalAddr, SockOpt, SetSockOpt, Statx, CreateDir, Rename, RemoveFile, Pipe, ToDirect, WaitId,
         ReadLimited, ReadN, WriteAll, WriteAllVectored, SendAll, Fsync, Truncate, Shutdown, Listen, PeerAddr, SyncData,
         FAdvise, Allocate, MemAdvise, SpliceTo, SpliceFrom, SendToVectored, OpenTemp, RecvN, ReadNVectored,
-        SendAllVectored, Pollable,
+        SendAllVectored, Pollable, ReceiveSignal, ReceiveSignals, ReceiveSignalsIntoInner,
     ];
     for k in kinds {
         let mut cfg = drop_cfg("C01", vec![k]);
